@@ -43,6 +43,11 @@ def _models():
         "antarctic_int": lambda: AntarcticIce(n0=2, k=1, a=0.0132, valid_range=(-2000, -10), index_above=1, index_below=2),
         "layered_2": lambda: LayeredIce([UniformIce(1.4, valid_range=(-100, 0)),
                                          AntarcticIce(valid_range=(-2850, -100))]),
+        # no outer indices given: above / below the stack the index continues with the value AT the outermost boundary (not with
+        # whatever the outer layers themselves would report outside their own range)
+        "layered_none": lambda: LayeredIce([UniformIce(1.4, valid_range=(-100, 0), index_above=1.0),
+                                            AntarcticIce(valid_range=(-2850, -100), index_below=1.0)],
+                                           index_above=None, index_below=None),
         "layered_3": lambda: LayeredIce([UniformIce(1.6, valid_range=(-777, -400), index_below=1.7),
                                          UniformIce(1.4, valid_range=(-400, 0)),
                                          GreenlandIce(valid_range=(-3000, -777))], index_above=1.0, index_below=2.5),
@@ -96,10 +101,13 @@ def evaluate(case):
             fail("index-shape", "index(scalar %r) is not a scalar: %r" % (z, v), z=z)
             continue
         scal[z] = float(v)
-        if z > hi and not scal[z] == ice.index_above:
-            fail("index-above", "index(%r)=%r but index_above=%r" % (z, scal[z], ice.index_above), z=z)
-        if z < lo and not scal[z] == ice.index_below:
-            fail("index-below", "index(%r)=%r but index_below=%r" % (z, scal[z], ice.index_below), z=z)
+        want_above, want_below = ice.index_above, ice.index_below
+        if name == "layered_none":
+            want_above, want_below = float(ice.layers[0].index(hi)), float(ice.layers[-1].index(lo))
+        if z > hi and not scal[z] == want_above:
+            fail("index-above", "index(%r)=%r but the declared index above the range is %r" % (z, scal[z], want_above), z=z)
+        if z < lo and not scal[z] == want_below:
+            fail("index-below", "index(%r)=%r but the declared index below the range is %r" % (z, scal[z], want_below), z=z)
         if lo <= z <= hi:
             nontriv.append("index|%r" % z)
     for shape in (1, 3, len(depths)):
